@@ -3,13 +3,14 @@ import Jose.Driver.IO
 import Jose.Driver.Jwk
 import Jose.Driver.Entity
 import Jose.Driver.Jws
+import Jose.Driver.Jwe
 /-
   Line-protocol driver: answers each `<op> <json>` line from the model.
   (`lake exe josemodel < ops`); see harness/hx.c for the real side.
 -/
 open Jose Jose.Driver
 
-def allOps : List (String × (Json → Json)) := b64Ops ++ ioOps ++ jwkOps ++ entityOps ++ jwsOps
+def allOps : List (String × (Json → Json)) := b64Ops ++ ioOps ++ jwkOps ++ entityOps ++ jwsOps ++ jweOps
 
 def handle (line : String) : String :=
   let line := line.trimAscii.toString
